@@ -804,6 +804,9 @@ def sum_over_loops(cost, rel, world, notes):
                 if stmt.iter.value.id in inplace_noise_passes(stmt):
                     raise AnalysisError('noise is added IN PLACE to a slice of the container `%s` filled earlier (line %d): which of its elements the '
                                         'slice covers, and how many, is not decided' % (stmt.iter.value.id, stmt.lineno))
+            if isinstance(stmt, ast.While) and any(isinstance(c, ast.Call) and U(c.func).split('.')[0] in ('nx', 'networkx') for c in ast.walk(stmt.test)):
+                raise AnalysisError('release inside `while %s` (line %d): the loop runs until a property of a graph holds; how many rounds that takes '
+                                    'is not decided by this analysis' % (U(stmt.test)[:60], stmt.lineno))
             return None, 'release inside a loop with no closed-form trip count (line %d)' % stmt.lineno
         i -= 1
     return total, None
